@@ -168,33 +168,58 @@ def llvm_disassemble_a64(words):
     return res
 
 
+def code_segments(p):
+    """-> list of (start, end, must_end_with_transfer): the code of a compiled program without its data ranges (jump tables, constant pool,
+    data embedded inside the function). A segment that is followed by data placed INSIDE the function must end with an unconditional transfer."""
+    size = len(p["hex"]) // 2
+    data = sorted((d[0], d[1], d[2]) for d in p.get("data", []))
+    ivs = []
+    for i, (off, sz, inside) in enumerate(data):
+        if sz < 0:  # constant pool: up to the next data range / end of the code
+            nxt = [d[0] for d in data if d[0] > off]
+            sz = (min(nxt) if nxt else size) - off
+        ivs.append((off, off + sz, inside))
+    segs = []
+    pos = 0
+    for off, end, inside in ivs:
+        if off > pos:
+            segs.append((pos, off, bool(inside)))
+        pos = max(pos, end)
+    if pos < size:
+        segs.append((pos, size, False))
+    return segs
+
+
 def check_x86_decode(progs, bits):
-    """every program's code range [0, code_end) must decode without '(bad)'. Returns (violations, stats)"""
+    """every code segment must decode without '(bad)'; data inside the function must be preceded by jmp/ret. Returns (violations, stats)"""
     if not progs:
         return [], {}
     blob = bytearray()
     spans = []
     for p in progs:
-        code = bytes.fromhex(p["hex"])[:p["code_end"]]
-        start = len(blob)
-        blob += code
-        spans.append((start, len(blob), p))
-        blob += b"\x90" * 16
+        code = bytes.fromhex(p["hex"])
+        for (s0, s1, must) in code_segments(p):
+            start = len(blob)
+            blob += code[s0:s1]
+            spans.append((start, len(blob), p, s0, must))
+            blob += b"\x90" * 16
     lines = objdump_x86(bytes(blob), bits)
     viol = []
-    stats = {"instructions_decoded": 0, "stack_loads": 0, "stack_stores": 0}
+    stats = {"instructions_decoded": 0, "stack_loads": 0, "stack_stores": 0, "code_segments": len(spans), "segments_before_embedded_data": 0}
+    last = {}
     si = 0
     for addr, n, text in lines:
         while si < len(spans) and addr >= spans[si][1] + 16:
             si += 1
         if si >= len(spans):
             break
-        s0, s1, p = spans[si]
+        s0, s1, p, coff, must = spans[si]
         if addr < s0 or addr >= s1:
             continue
         stats["instructions_decoded"] += 1
+        last[si] = (addr + n, text)
         if "(bad)" in text or text.startswith(".byte"):
-            viol.append((p, "undecodable bytes at code offset 0x%x: %s" % (addr - s0, text)))
+            viol.append((p, "undecodable", "undecodable bytes at code offset 0x%x: %s" % (coff + addr - s0, text)))
         m = re.match(r"^\w+\s+(.*)$", text)
         if m and re.search(r"\[(esp|ebp|rsp)[+\]]", text):
             ops = m.group(1)
@@ -202,6 +227,15 @@ def check_x86_decode(progs, bits):
                 stats["stack_loads"] += 1
             else:
                 stats["stack_stores"] += 1
+    for i, (s0, s1, p, coff, must) in enumerate(spans):
+        if not must:
+            continue
+        stats["segments_before_embedded_data"] += 1
+        end, text = last.get(i, (None, ""))
+        mn = text.split()[0] if text else ""
+        if end != s1 or mn not in ("jmp", "ret", "retn"):
+            viol.append((p, "falls-into-data", "code before the data embedded at offset 0x%x does not end with jmp/ret (last instruction: '%s'): "
+                            "execution falls through into data" % (coff + s1 - s0, text)))
     return viol, stats
 
 
@@ -209,20 +243,24 @@ def check_a64_decode(progs):
     if not progs:
         return [], {}
     words, owner = [], []
+    segs_all = []
     for pi, p in enumerate(progs):
-        code = bytes.fromhex(p["hex"])[:p["code_end"]]
-        for i in range(0, len(code) - 3, 4):
-            words.append(code[i:i + 4])
-            owner.append((pi, i))
+        code = bytes.fromhex(p["hex"])
+        for (s0, s1, must) in code_segments(p):
+            first = len(words)
+            for i in range(s0, s1 - 3, 4):
+                words.append(code[i:i + 4])
+                owner.append((pi, i))
+            segs_all.append((pi, first, len(words), s1, must))
     texts = llvm_disassemble_a64(words)
     viol = []
-    stats = {"instructions_decoded": 0, "stack_loads": 0, "stack_stores": 0}
+    stats = {"instructions_decoded": 0, "stack_loads": 0, "stack_stores": 0, "code_segments": len(segs_all), "segments_before_embedded_data": 0}
     seen = set()
     for (pi, off), t in zip(owner, texts):
         if t is None:
             if pi not in seen:
                 seen.add(pi)
-                viol.append((progs[pi], "undecodable word at code offset 0x%x: %s" % (off, bytes.fromhex(progs[pi]["hex"])[off:off + 4].hex())))
+                viol.append((progs[pi], "undecodable", "undecodable word at code offset 0x%x: %s" % (off, bytes.fromhex(progs[pi]["hex"])[off:off + 4].hex())))
             continue
         stats["instructions_decoded"] += 1
         if "[sp" in t:
@@ -231,6 +269,15 @@ def check_a64_decode(progs):
                 stats["stack_loads"] += 1
             elif mn.startswith("st"):
                 stats["stack_stores"] += 1
+    for pi, first, end, s1, must in segs_all:
+        if not must:
+            continue
+        stats["segments_before_embedded_data"] += 1
+        t = texts[end - 1] if end > first else None
+        mn = t.split()[0] if t else ""
+        if mn not in ("b", "br", "ret"):
+            viol.append((progs[pi], "falls-into-data", "code before the data embedded at offset 0x%x does not end with b/br/ret (last instruction: '%s'): "
+                                    "execution falls through into data" % (s1, t)))
     return viol, stats
 
 
@@ -551,14 +598,16 @@ def run(tier, args):
         if mode == "x86":
             viol, st = check_x86_decode(comp, 32)
             acc(decode_stats["x86"], st)
-            for p, what in viol:
-                chk.violation("x86-32:undecodable-code:" + p["profile"], what + " (program index %d)" % p["index"],
+            for p, kind, what in viol:
+                chk.violation("x86-32:%s" % ("undecodable-code" if kind == "undecodable" else "ret-or-jmp-missing-before-embedded-data"),
+                              what + " (program index %d, profile %s)" % (p["index"], p["profile"]),
                               {"argv": ["--mode", "x86", "--first", str(p["index"]), "--count", "1"] + argv[6:]})
         elif mode == "a64":
             viol, st = check_a64_decode(comp)
             acc(decode_stats["a64"], st)
-            for p, what in viol:
-                chk.violation("a64:undecodable-code:" + p["profile"], what + " (program index %d)" % p["index"],
+            for p, kind, what in viol:
+                chk.violation("a64:%s" % ("undecodable-code" if kind == "undecodable" else "branch-missing-before-embedded-data"),
+                              what + " (program index %d, profile %s)" % (p["index"], p["profile"]),
                               {"argv": ["--mode", "a64", "--first", str(p["index"]), "--count", "1"] + argv[6:]})
         elif mode in ("a64lists", "x86lists"):
             viol, st = check_lists(comp)
